@@ -60,6 +60,12 @@ def _check_after(g, m, rec, pre, what):
                 return V(f"{what}-position-mismatch",
                          lambda: f"axis {a}: machine at {m.pos[a]!r}, builder reports {pos[i]!r}; "
                          f"output={rec.text()!r}")
+    if not hasattr(g, "state"):          # the base class used directly has no state object
+        if (g.distance_mode.value == "relative") != m.relative:
+            return V(f"{what}-distance-mode-mismatch",
+                     lambda: f"core reports {g.distance_mode.value}, machine relative={m.relative}; "
+                     f"output={rec.text()!r}")
+        return None
     spos = g.state.position
     for i, a in enumerate("XYZ"):
         # the state object's copy must agree wherever the machine coordinate is known (before the
@@ -354,6 +360,10 @@ HIST["in-absolute_mode"] = lambda g, a: _hist_ctx(g, "in-absolute_mode", a)
 HIST["in-relative_mode"] = lambda g, a: _hist_ctx(g, "in-relative_mode", a)
 
 
+CORE_HIST = ["move(x)", "move(y,z)", "rapid(z)", "move_absolute(x)", "rapid_absolute(x,y)", "set_axis(x)",
+             "set_axis(y,z)", "relative", "absolute", "in-absolute_mode", "in-relative_mode"]
+
+
 def _make_history(seq, start="fresh"):
     """A TRUE history from a freshly constructed builder (all axes unknown, no private pre-state,
     no invariant assumed): I1 must hold after every call. start="rel": the history begins with the
@@ -365,11 +375,15 @@ def _make_history(seq, start="fresh"):
         from ..shims import TOKENS
         if MODE.symbolic:
             TOKENS.clear()
-        g = GCodeBuilder(line_endings="\\n")
+        if start.startswith("core"):
+            from gscrib import GCodeCore
+            g = GCodeCore(line_endings="\\n")
+        else:
+            g = GCodeBuilder(line_endings="\\n")
         rec = Rec()
         g.add_writer(rec)
         pre = mkpre()
-        if start == "rel":
+        if start in ("rel", "core-rel"):
             g.move(x=1.5, y=2.5, z=3.5)
             g.set_distance_mode("relative")
         for k, (name, a) in enumerate(zip(seq, vals)):
@@ -447,6 +461,14 @@ def cells(tier):
     core3 = ["move(x)", "move(y,z)", "set_axis(x)", "auto_home(x)", "probe(z)", "relative",
              "in-absolute_mode", "move_absolute(x)", "rapid_absolute(x,y)"]
     hseqs += list(itertools.product(core3 if quick else names, repeat=3))
+    core_seqs = list(itertools.product(CORE_HIST, repeat=2))
+    core_seqs += [(a, b, c) for a in ("move(x)", "move(y,z)", "relative") for b in CORE_HIST
+                  for c in ("move(x)", "move(y,z)", "rapid_absolute(x,y)")] if quick else \
+        list(itertools.product(CORE_HIST, repeat=3))
+    for start in ("core", "core-rel"):
+        for seq in core_seqs:
+            out.append(Cell(f"history|{start}|" + ",".join(seq), _make_history(seq, start), budget_s=budget,
+                            must_reach=("emitted",), entry="GCodeCore used directly (history from a fresh object)"))
     for start in ("fresh", "rel"):
         for seq in hseqs:
             out.append(Cell(f"history|{start}|" + ",".join(seq), _make_history(seq, start), budget_s=budget,
